@@ -36,6 +36,9 @@ type Plan struct {
 	DirDefault   map[string]int `json:"dir_default,omitempty"`
 	DirOverrides []Override     `json:"dir_overrides,omitempty"`
 	IOFaults     []IOFault      `json:"io_faults,omitempty"`
+	// StdinChunks makes reads from standard input short: the i-th Read returns at most
+	// StdinChunks[i % len] bytes (a legal behaviour of any stream, e.g. a pipe fed in instalments).
+	StdinChunks []int `json:"stdin_chunks,omitempty"`
 	// NowUnix is the simulated instant (seconds); 0 means DefaultNow.
 	NowUnix int64    `json:"now_unix,omitempty"`
 	Net     *NetPlan `json:"net,omitempty"`
